@@ -170,7 +170,7 @@ func sliceConcSrv(c *Ctx, kind string) {
 	var cases []string
 	ty := map[string]string{"counter": "ccall", "map": "mcall", "list": "lcall"}[kind]
 	for h := 0; h < n; h++ {
-		w := &wworld{c: c, e: getEnv(), kind: kind}
+		w := &wworld{c: c, e: getEnv(), kind: kind, inRound: true}
 		p, msg := guarded(func() {
 			ncol := 1 + c.Rng.Intn(2)
 			for i := 0; i < ncol; i++ {
@@ -182,7 +182,9 @@ func sliceConcSrv(c *Ctx, kind string) {
 				w.evs = append(w.evs, fmt.Sprintf("WCollection %s", gStr(name)))
 			}
 			ncl := 3 + c.Rng.Intn(6)
-			keys := []string{"k", "j", "i"}[:1+c.Rng.Intn(3)]
+			// key names never used before in this process: the server keeps its per-key locks by name for its lifetime, so
+			// only a new name exercises the first use of a lock by simultaneous requests
+			keys := []string{fmt.Sprintf("k%d", h), fmt.Sprintf("j%d", h), fmt.Sprintf("i%d", h)}[:1+c.Rng.Intn(3)]
 			for i := 0; i < ncl; i++ {
 				wc := w.newClient(w.cols[c.Rng.Intn(ncol)])
 				first := true
@@ -200,10 +202,15 @@ func sliceConcSrv(c *Ctx, kind string) {
 					first = false
 				}
 			}
-			// a sequential start for some, the others join in the first concurrent round
-			for _, x := range w.dts {
-				if c.Rng.Intn(2) == 0 {
-					w.sync(x, 0)
+			// a sequential start for some, the others join in the first concurrent round; in a cold start nobody goes first:
+			// all first requests on the new keys arrive at the same moment
+			if cold := c.Rng.Intn(2) == 0; cold {
+				c.Count("cold-start")
+			} else {
+				for _, x := range w.dts {
+					if c.Rng.Intn(2) == 0 {
+						w.sync(x, 0)
+					}
 				}
 			}
 			rounds := 2 + c.Rng.Intn(4)
@@ -212,6 +219,20 @@ func sliceConcSrv(c *Ctx, kind string) {
 					for k := c.Rng.Intn(3); k > 0; k-- {
 						w.cur = "local"
 						w.local(x)
+					}
+				}
+				// a key nobody has used yet: several clients ask for it (subscribe-or-create) for the first time in this round
+				if c.Rng.Intn(2) == 0 {
+					fresh := fmt.Sprintf("n%d_%d", h, r)
+					k := 0
+					for _, wc := range w.clients {
+						if wc.dts[fresh] == nil && c.Rng.Intn(4) != 0 {
+							w.newDt(wc, fresh, 2)
+							k++
+						}
+					}
+					if k >= 2 {
+						c.Count("round-with-new-key")
 					}
 				}
 				w.cur = "round"
